@@ -15,7 +15,7 @@ import traceback
 from rng import Rng, derive
 
 V = '/verif'
-BUILD = V + '/build'
+BUILD = os.environ.get('VERIF_BUILD', V + '/build')   # scratch build root for sensitivity runs (see bin/vbuild)
 BIN = BUILD + '/bin'
 SG = BUILD + '/sg'
 DEFAULT_SEED = 20260921
@@ -77,13 +77,24 @@ class Check:
 
 
 # ---------------------------------------------------------------------------------------------------------
+def _die_with_parent():
+    """a harness process must not outlive the worker that started it (a worker killed at the end of the wall budget
+    would otherwise leave a spinning harness behind): PR_SET_PDEATHSIG = SIGKILL"""
+    try:
+        import ctypes
+        ctypes.CDLL('libc.so.6', use_errno=True).prctl(1, signal.SIGKILL, 0, 0, 0)
+    except Exception:
+        pass
+
+
 def run_proc(cmd, stdin_data=None, timeout=30, env=None, cwd=None):
     """run a harness process in its own process group; returns (rc, stdout_bytes, stderr_bytes, timed_out)"""
     e = dict(os.environ)
     if env:
         e.update(env)
     p = subprocess.Popen(cmd, stdin=subprocess.PIPE if stdin_data is not None else subprocess.DEVNULL,
-                         stdout=subprocess.PIPE, stderr=subprocess.PIPE, env=e, cwd=cwd, start_new_session=True)
+                         stdout=subprocess.PIPE, stderr=subprocess.PIPE, env=e, cwd=cwd, start_new_session=True,
+                         preexec_fn=_die_with_parent)
     try:
         out, err = p.communicate(stdin_data, timeout=timeout)
         return p.returncode, out, err, False
